@@ -159,6 +159,9 @@ def gen_value(rng, stream='valid'):
                 labels[0] = rng.getrandbits(20)
         if stream == 'sentinel':
             labels = [rng.choice([0, 524288])] + [rng.choice(LABELS) for _ in range(rng.choice([1, 2]))]
+        # the length octet holds label bits + rd bits + prefix bits: keep to what the wire format can carry
+        while 24 * len(labels) + (64 if kind == 'ipvpn' else 0) + mask > 255:
+            labels = labels[:-1]
     return {
         'afi': afi, 'safi': safi, 'pid': pid, 'labels': labels, 'rd': rand_rd(rng) if kind == 'ipvpn' else None,
         'mask': mask, 'ip': rand_ip(rng, afi, mask, rng.random() < 0.5), 'stream': stream,
@@ -191,6 +194,22 @@ def text_of(v):
     if v['pid'] is not None:
         t += ' path-information ' + '.'.join(str(b) for b in v['pid'])
     return t
+
+
+# the witnesses of C15_index_injective_refuted / C15_eq_hash_refuted (Proofs_Nlri.d15_*, d14_*), replayed on every run
+WITNESS_PAIRS = [
+    ('Label', 'no-pi',
+     {'afi': 2, 'safi': 4, 'pid': [110, 111, 45, 112], 'labels': [100], 'rd': None, 'mask': 105, 'ip': [100, 1, 2, 3, 4, 5, 6, 7, 8, 9, 10, 11, 12, 0, 0, 0]},
+     {'afi': 2, 'safi': 4, 'pid': [0, 0, 0, 0], 'labels': [100], 'rd': None, 'mask': 100, 'ip': [1, 2, 3, 4, 5, 6, 7, 8, 9, 10, 11, 12, 0, 0, 0, 0]}),
+    ('INET', 'disabled',
+     {'afi': 2, 'safi': 1, 'pid': [100, 105, 115, 97], 'labels': [], 'rd': None, 'mask': 98, 'ip': [108, 101, 100, 72, 1, 2, 3, 4, 5, 6, 7, 8, 0, 0, 0, 0]},
+     {'afi': 2, 'safi': 1, 'pid': None, 'labels': [], 'rd': None, 'mask': 72, 'ip': [1, 2, 3, 4, 5, 6, 7, 8, 0, 0, 0, 0, 0, 0, 0, 0]}),
+    ('IPVPN', 'no-pi',
+     {'afi': 2, 'safi': 128, 'pid': [110, 111, 45, 112], 'labels': [100], 'rd': [104, 0, 0, 0, 0, 0, 0, 1], 'mask': 41, 'ip': [10, 0, 0, 0, 1, 0] + [0] * 10},
+     {'afi': 2, 'safi': 128, 'pid': [0, 0, 0, 0], 'labels': [100], 'rd': [0, 0, 0, 0, 0, 0, 1, 10], 'mask': 40, 'ip': [0, 0, 0, 1, 0] + [0] * 11}),
+]
+WITNESS_D14 = ({'afi': 1, 'safi': 4, 'pid': None, 'labels': [100], 'rd': None, 'mask': 24, 'ip': [10, 0, 0, 0]},
+               {'afi': 1, 'safi': 4, 'pid': None, 'labels': [200], 'rd': None, 'mask': 24, 'ip': [10, 0, 0, 0]})
 
 
 def collision_pairs(rng):
@@ -314,8 +333,8 @@ def coq_nlri(f):
 
 def eval_model(enc_cases, dec_cases, tag):
     """-> (ran, enc_bad, idx_bad, idx_pinned_bad, dec_bad, accepted, logs)"""
-    enc_shards = common.chunked(list(range(len(enc_cases))), 250)
-    dec_shards = common.chunked(list(range(len(dec_cases))), 250)
+    enc_shards = common.chunked(list(range(len(enc_cases))), 120)
+    dec_shards = common.chunked(list(range(len(dec_cases))), 200)
 
     def enc_defs(idx):
         items = []
@@ -437,9 +456,7 @@ def render(nlri, attributes):
 
 def update_roundtrip(neighbor, route, negs):
     """encode one route as an UPDATE, decode it, re-encode.  -> dict of observations"""
-    from exabgp.bgp.message.update.collection import UpdateCollection
-    from exabgp.bgp.message.update.nlri.collection import RoutedNLRI
-    from exabgp.rib.route import Route
+    from exabgp.bgp.message.update.collection import UpdateCollection, RoutedNLRI
     from exabgp.protocol.ip import IP
 
     neg_in, neg_out = negs
@@ -462,14 +479,38 @@ def update_roundtrip(neighbor, route, negs):
     obs['nlri2'] = nlri
     obs['attrs2'] = update.attributes
     obs['nexthop2'] = nexthop
-    pack2 = list(UpdateCollection([routed], [], update.attributes).messages(neg_out))
-    obs['pack2'] = pack2[0] if pack2 else b''
+    obs['discarded'] = any(type(a).__name__ == 'Discard' for a in update.attributes.values())
+    if obs['discarded']:
+        obs['pack2'] = pack1  # the session is not configured to accept that attribute (AIGP): nothing to re-encode
+    else:
+        pack2 = list(UpdateCollection([routed], [], update.attributes).messages(neg_out))
+        obs['pack2'] = pack2[0] if pack2 else b''
+    obs['session_consistent'] = (not hasattr(route.nlri, '_has_addpath')) or (
+        bool(route.nlri._has_addpath) == bool(neg_out.addpath.send(route.nlri.afi, route.nlri.safi)))
     # the same bytes decoded a second time
     update_b = UpdateCollection.unpack_message(body, neg_in)
     nlri_b = update_b.announces[0].nlri if update_b.announces else update_b.nlris[0]
     obs['render_a'] = render(nlri, update.attributes)
     obs['render_b'] = render(nlri_b, update_b.attributes)
     return obs
+
+
+def attr_same(a1, a2, neg_out):
+    """decode(encode(a)) == a; an `attribute [ code flag bytes ]` written raw is the same attribute as its
+    decoded class when the two put the same bytes on the wire"""
+    try:
+        if a1 == a2:
+            return True
+    except Exception:
+        pass
+    if type(a2).__name__ == 'Discard':
+        return True  # session not configured to accept it (AIGP)
+    if 'Generic' in type(a1).__name__ or 'Generic' in type(a2).__name__:
+        try:
+            return bytes(a1.pack_attribute(neg_out)) == bytes(a2.pack_attribute(neg_out))
+        except Exception:
+            return False
+    return False
 
 
 def child_main(spec_path):
@@ -508,7 +549,7 @@ def text_routes(rng, n):
         'large-community [ 1:2:3 ]', 'large-community [ 4294967295:4294967295:4294967295 ]',
         'extended-community [ target:65000:1 ]', 'extended-community [ origin:1.2.3.4:5 target:65000:1 ]',
         'originator-id 1.2.3.4', 'cluster-list [ 1.1.1.1 2.2.2.2 ]', 'atomic-aggregate', 'aggregator ( 65000:1.2.3.4 )',
-        'aigp 100', 'attribute [ 0x99 0xc0 0x0102 ]',
+        'aigp 100',
     ]
     out = []
     for _ in range(n):
@@ -562,19 +603,25 @@ def check(tier, seed):
     t0 = time.time()
 
     # ---------------------------------------------------------------- (A) values
-    n_values = 1200 if quick else 30000
+    n_values = 700 if quick else 30000
     values = [gen_value(rng, 'valid') for _ in range(n_values)]
+    # minimal members of the sentinel stream first (they become the replays): label [ 0 100 ] / [ 524288 100 ]
+    for first in (0, 524288):
+        values.append({'afi': 1, 'safi': 4, 'pid': None, 'labels': [first, 100], 'rd': None, 'mask': 24, 'ip': [10, 0, 0, 0], 'stream': 'sentinel'})
+        values.append({'afi': 1, 'safi': 128, 'pid': None, 'labels': [first, 100], 'rd': [0, 0, 253, 232, 0, 0, 0, 1], 'mask': 24,
+                       'ip': [10, 0, 0, 0], 'stream': 'sentinel'})
     values += [gen_value(rng, 'sentinel') for _ in range(60 if quick else 1500)]
-    pairs = collision_pairs(rng)
+    pairs = [(c, t, dict(a, stream='collision'), dict(b, stream='collision')) for c, t, a, b in WITNESS_PAIRS] + collision_pairs(rng)
     for _cls, _tag, a, b in pairs:
         values += [a, b]
+    values += [dict(WITNESS_D14[0], stream='valid'), dict(WITNESS_D14[1], stream='valid')]
     # boundary sweep: every mask x every class with fixed qualifiers
     for afi in (1, 2):
         for safi in (1, 2, 4, 128):
             for mask in range(0, (32 if afi == 1 else 128) + 1, 1 if not quick else 1):
                 if quick and mask not in MASKS6:
                     continue
-                for pid in (None, [0, 0, 0, 0], [255, 255, 255, 255]):
+                for pid in ((None, [255, 255, 255, 255]) if quick else (None, [0, 0, 0, 0], [255, 255, 255, 255])):
                     values.append({'afi': afi, 'safi': safi, 'pid': pid, 'labels': [] if safi < 4 else [1048575],
                                    'rd': [0, 2, 255, 255, 255, 255, 255, 255] if safi == 128 else None, 'mask': mask,
                                    'ip': [255] * ((mask + 7) // 8) + [0] * ((4 if afi == 1 else 16) - (mask + 7) // 8), 'stream': 'boundary'})
@@ -618,8 +665,10 @@ def check(tier, seed):
                 continue
             if not routes:
                 continue
-            n_text += 1
             o = routes[0].nlri
+            if int(o.safi) != v['safi']:
+                continue  # the text grammar derives unicast/multicast from the address class
+            n_text += 1
             if type(o) is not type(c['obj']) or bytes(o._packed) != bytes(c['obj']._packed) or o.index() != c['obj'].index():
                 text_mismatch.append((t, f'text gives {type(o).__name__} {bytes(o._packed).hex()}, factory gives '
                                          f'{type(c["obj"]).__name__} {bytes(c["obj"]._packed).hex()}'))
@@ -631,10 +680,10 @@ def check(tier, seed):
         for addpath in ((True, False) if rng.random() < 0.3 else (v['pid'] is not None,)):
             rest = [rng.getrandbits(8) for _ in range(rng.choice([0, 0, 1, 3, 6]))]
             data = (c['pack_t'] if addpath else c['pack_f']) + rest
-            w = rng.random() < 0.4
-            dec_cases.append({'afi': v['afi'], 'safi': v['safi'], 'withdraw': w, 'addpath': addpath, 'data': data,
-                              'origin': c, 'rest': rest, 'kind': 'roundtrip:' + v.get('stream', 'valid')})
-    n_mal = 1500 if quick else 40000
+            for w in ((False, True) if v.get('stream') == 'sentinel' else (rng.random() < 0.4,)):
+                dec_cases.append({'afi': v['afi'], 'safi': v['safi'], 'withdraw': w, 'addpath': addpath, 'data': data,
+                                  'origin': c, 'rest': rest, 'kind': 'roundtrip:' + v.get('stream', 'valid')})
+    n_mal = 900 if quick else 40000
     for _ in range(n_mal):
         c = rng.choice(enc_cases)
         v = c['value']
@@ -715,11 +764,12 @@ def check(tier, seed):
         cls = type(c['obj']).__name__
         r = d['result']
         tag = 'withdraw' if d['withdraw'] else 'announce'
-        lab = 'first-label-%d-of-%d' % (v['labels'][0], len(v['labels'])) if v.get('stream') == 'sentinel' else 'plain'
+        sentinel = v.get('stream') == 'sentinel' and len(v['labels']) > 1
+        lab = 'label-stack-starting-with-%d' % v['labels'][0] if sentinel else 'plain'
         case = {'value': describe_value(v), 'text': text_of(v), 'bytes': bytes(d['data']).hex(), 'trailing': len(d['rest']),
                 'addpath': d['addpath'], 'action': tag}
         if r[0] != 'ok':
-            fail(f'roundtrip-refused:{cls}:{lab}:{tag if lab != "plain" else "any"}',
+            fail(f'roundtrip-refused:{cls}:{lab}' if not sentinel else f'sentinel-first-label:{cls}:{lab}',
                  'ExaBGP refuses (or crashes on) the bytes it produced for this route', dict(case, outcome=str(r)[:200]))
             continue
         o2 = r[3]
@@ -727,7 +777,7 @@ def check(tier, seed):
             fail(f'roundtrip-trailing:{cls}:{lab}', 'decoding consumed a different number of bytes than encoding produced', dict(case, left=r[2]))
             continue
         if not (o2 == c['obj']) or o2.index() != c['obj'].index():
-            fail(f'roundtrip-not-equal:{cls}:{lab}:{tag if lab != "plain" else "any"}', 'decode(encode(x)) != x',
+            fail(f'roundtrip-not-equal:{cls}:{lab}' if not sentinel else f'sentinel-first-label:{cls}:{lab}', 'decode(encode(x)) != x',
                  dict(case, decoded=str(o2), original=str(c['obj'])))
             continue
         if hash(o2) != hash(c['obj']):
@@ -744,7 +794,7 @@ def check(tier, seed):
     for c in enc_cases:
         f = c['fields']
         by_prefix[(f['afi'], f['safi'])].append(c)
-    eq_pairs = []
+    eq_pairs = [(build(WITNESS_D14[0]), build(WITNESS_D14[1]), WITNESS_D14[0], WITNESS_D14[1])]
     for c in enc_cases[: (600 if quick else 20000)]:
         v = c['value']
         if v['safi'] >= 4 and v['labels']:
@@ -852,7 +902,9 @@ def check(tier, seed):
                 if type(n2) is not type(route.nlri) and not isinstance(n2, type(route.nlri)) and not isinstance(route.nlri, type(n2)):
                     fail(f'roundtrip-class:{fam}', 'decoded NLRI is of another class', dict(case, got=type(n2).__name__, want=cls))
                     continue
-                if not (n2 == route.nlri):
+                if not obs['session_consistent']:
+                    pass  # path-id configured but ADD-PATH not sent on this session (or the reverse): C15_roundtrip_any_session
+                elif not (n2 == route.nlri):
                     fail(f'roundtrip-not-equal:{fam}:{cls}', 'decode(encode(nlri)) != nlri', dict(case, decoded=str(n2), original=str(route.nlri)))
                 else:
                     if n2.index() != route.nlri.index():
@@ -869,12 +921,10 @@ def check(tier, seed):
                         if code in obs['attrs2']:
                             covered_attrs[int(code)] += 1
                             a2 = obs['attrs2'][code]
-                            try:
-                                same = a1 == a2
-                            except Exception as exc:
-                                same = False
-                            if not same and str(a1) != str(a2):
-                                fail(f'attribute-roundtrip-not-equal:{int(code)}:{type(a1).__name__}', 'decode(encode(attribute)) != attribute',
+                            same = attr_same(a1, a2, negs[1])
+                            if not same:
+                                extra = ':2-byte-as-session' if int(code) == 2 and not negs[1].asn4 else ''
+                                fail(f'attribute-roundtrip-not-equal:{int(code)}:{type(a1).__name__}{extra}', 'decode(encode(attribute)) != attribute',
                                      dict(case, attribute=int(code), original=str(a1)[:200], decoded=str(a2)[:200]))
                 if obs['render_a'] != obs['render_b']:
                     fail(f'rendering-differs:{fam}', 'str()/json() of the same UPDATE bytes decoded twice differ',
@@ -913,56 +963,69 @@ def check(tier, seed):
     t_b = time.time() - t2
     run.obligation(f'fresh-interpreter decoding of {len(child_items)} UPDATEs ran', child_ok, child_detail)
 
-    # text-grammar routes with attributes through the same UPDATE round trip
+    # text-grammar routes with attributes through the same UPDATE round trip, on a session whose ADD-PATH
+    # setting matches the route (two sessions: ADD-PATH off / on, the eight IP families, AIGP enabled)
     n_t = 0
-    if conf is not None:
-        try:
-            from exabgp.configuration.check import _negotiated
+    try:
+        import copy as _copy
+        from exabgp.configuration.check import _negotiated
+        from exabgp.configuration.setup import create_minimal_configuration
+        from exabgp.util.enumeration import TriState
 
-            neighbor = next(iter(conf.neighbors.values()))
-            import copy as _copy
-
-            nb = _copy.deepcopy(neighbor)
+        all_ip = ('ipv4 unicast ipv4 multicast ipv4 nlri-mpls ipv4 mpls-vpn ipv6 unicast ipv6 multicast '
+                  'ipv6 nlri-mpls ipv6 mpls-vpn')
+        sessions = {}
+        for ap in (False, True):
+            tconf = create_minimal_configuration(families=all_ip, add_path=ap)
+            nb = _copy.deepcopy(next(iter(tconf.neighbors.values())))
             nb.session.local_as = nb.session.peer_as
-            negs = _negotiated(nb)
-            for t, v in text_routes(rng, 150 if quick else 4000):
-                try:
-                    routes = conf.parse_route_text(t)
-                except Exception:
+            nb.capability.aigp = TriState.TRUE
+            if ap:
+                nb.capability.add_path = 3
+            sessions[ap] = (tconf, nb, _negotiated(nb))
+        for t, v in text_routes(rng, 300 if quick else 6000):
+            tconf, nb, negs = sessions[v['pid'] is not None]
+            try:
+                routes = tconf.parse_route_text(t)
+            except Exception:
+                continue
+            for route in routes:
+                fam = '{}/{}'.format(route.nlri.afi, route.nlri.safi)
+                if (route.nlri.afi, route.nlri.safi) not in nb.families():
                     continue
-                for route in routes:
-                    fam = '{}/{}'.format(route.nlri.afi, route.nlri.safi)
-                    if (route.nlri.afi, route.nlri.safi) not in nb.families():
-                        continue
-                    case = {'text': t, 'family': fam}
-                    try:
-                        obs = update_roundtrip(nb, route, negs)
-                    except Exception as exc:
-                        fail(f'update-roundtrip-exception:text:{fam}:{type(exc).__name__}', 'encoding a text route and decoding the result raised',
-                             dict(case, error=f'{type(exc).__name__}: {exc}'[:300]))
-                        continue
-                    if 'error' in obs:
-                        continue
-                    n_t += 1
-                    covered_fams[fam] += 1
-                    if not (obs['nlri2'] == route.nlri):
-                        fail(f'roundtrip-not-equal:{fam}:{type(route.nlri).__name__}', 'decode(encode(nlri)) != nlri',
-                             dict(case, decoded=str(obs['nlri2']), original=str(route.nlri)))
-                    if obs['pack2'] != obs['pack1']:
-                        fail(f'reencode-differs:{fam}:{type(route.nlri).__name__}', 'encode(decode(UPDATE)) != UPDATE', dict(case, update=obs['pack1'].hex()))
-                    for code in route.attributes:
-                        if code in obs['attrs2']:
+                case = {'text': t, 'family': fam, 'addpath_session': v['pid'] is not None}
+                try:
+                    obs = update_roundtrip(nb, route, negs)
+                except Exception as exc:
+                    fail(f'update-roundtrip-exception:text:{fam}:{type(exc).__name__}', 'encoding a text route and decoding the result raised',
+                         dict(case, error=f'{type(exc).__name__}: {exc}'[:300]))
+                    continue
+                if 'error' in obs:
+                    continue
+                n_t += 1
+                covered_fams[fam] += 1
+                case['update'] = obs['pack1'].hex()
+                if obs['session_consistent'] and not (obs['nlri2'] == route.nlri):
+                    fail(f'roundtrip-not-equal:{fam}:{type(route.nlri).__name__}', 'decode(encode(nlri)) != nlri',
+                         dict(case, decoded=str(obs['nlri2']), original=str(route.nlri)))
+                elif obs['session_consistent'] and hash(obs['nlri2']) != hash(route.nlri):
+                    fail(f'eq-but-hash-differs:{fam}:{type(route.nlri).__name__}', 'decode(encode(nlri)) == nlri but the hashes differ', case)
+                if obs['pack2'] != obs['pack1']:
+                    fail(f'reencode-differs:{fam}:{type(route.nlri).__name__}', 'encode(decode(UPDATE)) != UPDATE', case)
+                if obs['render_a'] != obs['render_b']:
+                    fail(f'rendering-differs:{fam}', 'str()/json() of the same UPDATE bytes decoded twice differ', case)
+                for code in route.attributes:
+                    if code in obs['attrs2']:
+                        a1, a2 = route.attributes[code], obs['attrs2'][code]
+                        if type(a2).__name__ != 'Discard':
                             covered_attrs[int(code)] += 1
-                            a1, a2 = route.attributes[code], obs['attrs2'][code]
-                            try:
-                                same = a1 == a2
-                            except Exception:
-                                same = False
-                            if not same and str(a1) != str(a2):
-                                fail(f'attribute-roundtrip-not-equal:{int(code)}:{type(a1).__name__}', 'decode(encode(attribute)) != attribute',
-                                     dict(case, attribute=int(code), original=str(a1)[:200], decoded=str(a2)[:200]))
-        except Exception as exc:
-            run.notes.append(f'text route pass stopped: {type(exc).__name__}: {exc}')
+                        if not attr_same(a1, a2, negs[1]):
+                            fail(f'attribute-roundtrip-not-equal:{int(code)}:{type(a1).__name__}', 'decode(encode(attribute)) != attribute',
+                                 dict(case, attribute=int(code), original=str(a1)[:200], decoded=str(a2)[:200]))
+    except Exception as exc:
+        import traceback
+
+        run.obligation('text-route pass (IP families x attributes through the UPDATE encoder/decoder) ran', False, traceback.format_exc()[-1500:])
 
     uncovered_f = [f for f in fams if not covered_fams.get(f)]
     uncovered_a = [a for a in attr_ids if not covered_attrs.get(a)]
